@@ -5,9 +5,10 @@ from concurrent.futures import ProcessPoolExecutor
 
 VERIF = os.path.dirname(os.path.dirname(os.path.abspath(__file__)))
 REPO = os.environ.get('VERIF_REPO', '/repo')
-EVID = os.path.join(VERIF, 'evidence')
+# runs against a scratch/mutant tree (VERIF_REPO=...) must never overwrite the evidence of /repo itself
+EVID = os.path.join(VERIF, 'evidence') if REPO == '/repo' else os.path.join(VERIF, 'build', 'mutant-evidence')
 CACHE = os.path.join(VERIF, 'build', 'cache')
-REPLAY_DIR = os.path.join(VERIF, 'build', 'replay')
+REPLAY_DIR = os.path.join(VERIF, 'build', 'replay' if REPO == '/repo' else 'mutant-replay')
 KNOWN = os.path.join(VERIF, 'known_findings.json')
 NPROC = min(16, os.cpu_count() or 4)
 
